@@ -177,6 +177,8 @@ func c07Save(r *core.Run, p *core.Program) {
 		}
 	})
 	r.Check(glob && names["UTXO.db"] && names["UTXO.old"], rule, "loader/fallback", p.Pos(ld.Pos()), "removes *.db.tmp, reads UTXO.db, falls back to UTXO.old", "the loader does not remove unfinished *.db.tmp files or does not fall back from UTXO.db to UTXO.old")
+	// what is read reaches the set: hand-over of decoded records to the map filler (shared with C10)
+	c10Batches(r, p, ld, rule)
 	// the fallback is a retry of the whole read: the helper goroutine of the failed attempt is joined
 	// before another one is started (otherwise the second attempt's Wait never returns), i.e. there is
 	// no way from the go statement back to itself that avoids WaitGroup.Wait
